@@ -33,7 +33,12 @@ RULE = ("stateless exploration, one pristine forked process per execution: real 
 ASSUMPTIONS = ["CPython switches threads only between bytecodes; free-threaded builds are out of scope",
                "configuration is not mutated concurrently (as the property states)"]
 
-DOCS = ["a", "*a* `b`", "> q", "- l", "[x](y)", "![i](j)", "|a|\n|-|", "[r]\n\n[r]: /u", "<http://é.x/ü> &amp;"]
+DOCS = ["a", "*a* `b`", "> q", "- l", "[x](y)", "![i](j)", "|a|\n|-|", "[r]\n\n[r]: /u", "<http://é.x/ü> &amp;",
+        # paragraphs interrupted without a blank line: every named terminator chain is consulted
+        "a\n# h\nb\n> q\nc\n- l\nd\n***\ne\n```\nf\n```\ng\n<div>\n\n[r]: /u\n1. o\nz\n|t|\n|-|\n",
+        # inline scanners with per-parse scratch state: backtick run cache, delimiter stacks, link-label skip cache
+        "``a `b` c `d` *e **f* g** [h `i](j) ![k][",
+        "``y `x` *z* [w](v) **_a_** [[b](c)](d) ~~e~"]
 PRESET = ("js-default", None)
 SCENARIOS = ["fresh", "reconf-disable", "reconf-enable", "reconf-push", "reconf-ruler2", "warm"]
 
@@ -214,8 +219,9 @@ def instrument(md, plan, counts):
     md.options["highlight"] = wrap(("highlight", ""), lambda c, l, a: "")
 
 
-REENTRY_OUTER = "# h\n\n> *a* [l](u) `c`\n\n- x\n- y\n\n```py\nz\n```\n\n![i](j) &amp; \\*\n\n[r]\n\n[r]: /u\n\n|a|\n|-|\n"
-REENTRY_INNER = ["*n* [m](o)\n\n> - p\n", "[r]\n\n[r]: /other\n", "```\nf\n```\n\n![i2](j2)"]
+REENTRY_OUTER = ("# h\n\n> *a* [l](u) `c`\n\n- x\n- y\n\n```py\nz\n```\n\n![i](j) &amp; \\*\n\n[r]\n\n[r]: /u\n\n|a|\n|-|\n\n"
+                 "``a `b` c `d` *e **f* g** [h `i](j)\n")
+REENTRY_INNER = ["*n* [m](o)\n\n> - p\n", "[r]\n\n[r]: /other\n", "```\nf\n```\n\n![i2](j2)", "``y `x` *z* [w](v) **_a_** [[b](c)](d)"]
 
 
 def _mk_instrumented(preset):
@@ -228,12 +234,13 @@ def _mk_instrumented(preset):
     return md, plan, counts
 
 
-def job_reentry_profile(preset):
+def job_reentry_profile(job):
+    preset, extra_inner = job
     md, plan, counts = _mk_instrumented(preset)
     ref_outer = md.render(REENTRY_OUTER)
     sites = {json.dumps(k): v for k, v in counts.items()}
     ref_inner = {}
-    for d in REENTRY_INNER:
+    for d in list(REENTRY_INNER) + list(extra_inner):
         m2, _, _ = _mk_instrumented(preset)
         e = {}
         ref_inner[d] = (m2.render(d, e), json.dumps(e, sort_keys=True, default=str))
@@ -279,7 +286,7 @@ def job_lemma_docs(job):
     base = heapwalk.fingerprint([md])[0]
     n = 0
     bad = []
-    for doc in itertools.chain(S.docs_with_first(f, S.FREE_LINES, K), DOCS):
+    for doc in itertools.chain(S.docs_with_first(f, S.FREE_LINES, K), DOCS, S.strings(S.ATOMS_CORE, 2)):
         try:
             md.render(doc)
         except Exception:
@@ -293,9 +300,10 @@ def job_lemma_docs(job):
 
 
 # ---- plan (runs in the pristine master) --------------------------------------------------------------------
-QUICK_PAIRS = [("fresh", 1, 4, "mixed"), ("fresh", 4, 5, "mixed"), ("fresh", 8, 4, "mixed"), ("fresh", 2, 3, "line"),
-               ("fresh", 7, 6, "line"), ("reconf-enable", 1, 4, "mixed"), ("reconf-push", 1, 3, "line"),
-               ("reconf-disable", 4, 1, "line"), ("reconf-ruler2", 1, 2, "line"), ("warm", 1, 4, "line")]
+QUICK_PAIRS = [("fresh", 1, 4, "mixed"), ("fresh", 4, 5, "mixed"), ("fresh", 8, 9, "mixed"), ("fresh", 2, 3, "line"),
+               ("fresh", 7, 6, "line"), ("reconf-enable", 1, 9, "mixed"), ("reconf-push", 1, 3, "line"),
+               ("reconf-disable", 4, 1, "line"), ("reconf-ruler2", 1, 2, "line"), ("warm", 10, 11, "line"),
+               ("warm", 11, 10, "line"), ("fresh", 10, 11, "line")]
 
 
 def bounds(tier):
@@ -307,8 +315,8 @@ def bounds(tier):
                 "4 pairs" if th else "1 pair") + " x fresh",
             "three_threads": th, "call_kinds": ["render", "parse", "parseInline"],
             "lemma_docs_every_line": 6 if th else 2,
-            "lemma_docs_before_after": "free L-space K<=2" if th else "free L-space K<=1 + pool",
-            "reentry": "every invocation of every site x 3 inner documents x {render, parse} x {first use, warmed}"}
+            "lemma_docs_before_after": ("free L-space K<=2" if th else "free L-space K<=1") + " + pool + inline atom strings L<=2",
+            "reentry": "every invocation of every site x 4 inner documents x {render, parse} x {first use, warmed}"}
 
 
 def shards(tier):
@@ -340,6 +348,38 @@ def run_shard(sh, acc):
                 ([(1, 4), (4, 5), (0, 7), (6, 3)] if th else [(4, 5)])]
     three = [("fresh", ("render", DOCS[a]), ("render", DOCS[b]), ("render", DOCS[c])) for a, b, c in
              (((1, 4, 2), (7, 6, 5)) if th else ())]
+    # 0. quiescence lemma: a render on a warmed instance writes nothing to the shared heap (generic fingerprint).
+    #    A document for which this fails is not by itself a violation (a benign memo would do the same); it loses
+    #    the lemma's protection, so its interleavings and re-entries are explored explicitly below.
+    suspects = []
+    lem = []
+    for di in range(6 if th else 2):
+        lem.append(("warm", "render", DOCS[(di + 1) % len(DOCS)], "line"))
+    for k, (n, wr) in profile_with_writes(lem).items():
+        acc.case()
+        acc.count("lemma_line_profiles")
+        acc.count("lemma_line_steps_fingerprinted", n)
+        if wr:
+            suspects.append(k[2])
+            for w in wr[:6]:
+                acc.add("shared_write_sites_warm", w[1])
+    lines = S.FREE_LINES if th else S.FREE_LINES[:2]
+    ld = [(f, 2 if th else 1) for f in lines]
+    for idx, res in fork_map(job_lemma_docs, ld, NPROC):
+        if res[0] != "ok":
+            continue
+        n, bad = res[1]
+        acc.case(n)
+        acc.count("lemma_before_after_docs", n)
+        suspects.extend(bad[:3])
+    acc.sample("lemma", {"scenario": "warm", "doc": DOCS[1], "granularity": "every line event, generic heap fingerprint"}, 1)
+    suspects = sorted(set(suspects), key=lambda d: (len(d), d))[:6]
+    acc.count("lemma_failed_docs", len(suspects))
+    for d in suspects:
+        acc.add("lemma_failed_docs", d)
+        for other in (d, DOCS[10], DOCS[11], DOCS[9]):
+            pairs.append(("warm", ("render", d), ("render", other), "line"))
+            pairs.append(("warm", ("render", other), ("render", d), "line"))
     # 1. solos and profiles
     need_solo = set()
     need_prof = set()
@@ -442,39 +482,16 @@ def run_shard(sh, acc):
             continue
         for job, err, sw in lst:
             acc.violation("sched", key[0] + " " + key[1], dict(_case(job, sw), error=err), err)
-    # 4. lemma: zero shared writes on a warmed instance
-    lem = []
-    for di in range(6 if th else 2):
-        lem.append(("warm", "render", DOCS[(di + 1) % len(DOCS)], "line"))
-    for k, (n, wr) in profile_with_writes(lem).items():
-        acc.case()
-        acc.count("lemma_line_profiles")
-        acc.count("lemma_line_steps_fingerprinted", n)
-        if wr:
-            acc.violation("lemma", "shared write on a warmed instance", {"scenario": "warm", "doc": k[2]},
-                          f"a solo render on a warmed instance writes the shared heap at {wr[:4]}")
-    lines = S.FREE_LINES if th else S.FREE_LINES[:2]
-    ld = [(f, 2 if th else 1) for f in lines]
-    for idx, res in fork_map(job_lemma_docs, ld, NPROC):
-        if res[0] != "ok":
-            continue
-        n, bad = res[1]
-        acc.case(n)
-        acc.count("lemma_before_after_docs", n)
-        for doc in bad[:3]:
-            acc.violation("lemma", "shared write on a warmed instance", {"scenario": "warm", "doc": doc},
-                          "a render on a warmed instance left the shared heap fingerprint changed")
-    acc.sample("lemma", {"scenario": "warm", "doc": DOCS[1], "granularity": "every line event, generic heap fingerprint"}, 1)
     # 5. re-entrancy
     for preset in ("commonmark", "js-default"):
-        pr = dict(fork_map(job_reentry_profile, [preset], 1))[0]
+        pr = dict(fork_map(job_reentry_profile, [(preset, suspects)], 1))[0]
         if pr[0] != "ok":
             raise RuntimeError("re-entrancy profile failed: " + str(pr[1])[:300])
         ref_outer, sites, ref_inner = pr[1]
         rj = []
         for site, N in sorted(sites.items()):
             for i in range(1, N + 1):
-                for d in REENTRY_INNER:
+                for d in list(REENTRY_INNER) + suspects:
                     for kind in ("render", "parse"):
                         for first in (True, False):
                             rj.append((preset, json.loads(site), i, d, kind, first, ref_outer, ref_inner[d]))
@@ -515,13 +532,9 @@ def check_case(case, acc):
             sw = res[1][2]
             acc.violation(sub, "replay " + _cls(res[1][0]), dict(_case(job, sw), error=res[1][0]), res[1][0])
     elif sub == "lemma":
-        k = (case["scenario"], "render", case["doc"], "line")
-        n, wr = profile_with_writes([k])[k]
-        if wr:
-            acc.violation(sub, "shared write on a warmed instance", {"scenario": case["scenario"], "doc": case["doc"]},
-                          f"shared writes at {wr[:4]}")
+        pass  # lemma failures are not violations any more (they widen the exploration instead)
     elif sub == "reentry":
-        pr = dict(fork_map(job_reentry_profile, [case["preset"]], 1))[0][1]
+        pr = dict(fork_map(job_reentry_profile, [(case["preset"], [case["inner"]])], 1))[0][1]
         job = (case["preset"], case["site"], case["index"], case["inner"], case["kind"], case["first_use"], pr[0],
                pr[2][case["inner"]])
         res = dict(fork_map(job_reentry, [job], 1))[0]
